@@ -42,7 +42,14 @@ func (w *world) makeIntraCanary() error {
 			return err
 		}
 	}
-	for _, f := range []string{filepath.Join(c, "f0"), filepath.Join(c, "d", "f")} {
+	// d mirrors the names used under root/a in the multi-transition plans
+	// (s/x, s/y, s/d/y), so that an operation that followed a link planted at
+	// root/a or root/a/s would find what it is looking for.
+	if err := os.Mkdir(filepath.Join(c, "d", "s", "d"), 0o755); err != nil {
+		return err
+	}
+	for _, f := range []string{filepath.Join(c, "f0"), filepath.Join(c, "d", "f"), filepath.Join(c, "d", "x"), filepath.Join(c, "d", "y"),
+		filepath.Join(c, "d", "s", "x"), filepath.Join(c, "d", "s", "y"), filepath.Join(c, "d", "s", "d", "y")} {
 		if err := os.WriteFile(f, []byte("CANARY"), 0o644); err != nil {
 			return err
 		}
@@ -84,6 +91,25 @@ func (w *world) resolveTemporary(rel string) (string, bool) {
 	return strings.Join(parts, "/"), true
 }
 
+// swapVariants are the objects that can be swapped relative to a point's
+// path: the named object itself, its parent directory, and the ancestors two
+// and three levels up (every ancestor component inside the root at the
+// depths used here).
+var swapVariants = []string{"leaf", "parent", "up2", "up3"}
+
+// swapTarget returns the path (relative to the worker's base) that the variant
+// designates for a point path, or "" when that is not strictly inside the root.
+func swapTarget(rel, variant string) string {
+	up := map[string]int{"leaf": 0, "parent": 1, "up2": 2, "up3": 3}[variant]
+	for i := 0; i < up; i++ {
+		rel = path.Dir(rel)
+	}
+	if !strings.HasPrefix(rel, "root/") {
+		return ""
+	}
+	return rel
+}
+
 // swapAt replaces the object named by point p (variant "leaf") or its parent
 // directory (variant "parent") by a symbolic link to the canary object of the
 // matching type; the original is moved aside, outside the root and outside
@@ -93,14 +119,12 @@ func (w *world) swapAt(p point, variant string) bool {
 	if !ok {
 		return false
 	}
-	if variant == "parent" {
-		rel = path.Dir(rel)
-	}
-	if !strings.HasPrefix(rel, "root/") {
+	rel = swapTarget(rel, variant)
+	if rel == "" {
 		return false // the root itself (or something outside it) is not "a link that lives inside the root"
 	}
 	abs := filepath.Join(w.base, filepath.FromSlash(rel))
-	wantDir := p.Op == "mkdirat" || variant == "parent"
+	wantDir := p.Op == "mkdirat" || variant != "leaf"
 	if st, err := os.Lstat(abs); err == nil {
 		wantDir = st.IsDir()
 		w.seq++
@@ -109,7 +133,7 @@ func (w *world) swapAt(p point, variant string) bool {
 		if err := os.Rename(abs, filepath.Join(aside, fmt.Sprintf("o%d", w.seq))); err != nil {
 			return false
 		}
-	} else if variant == "parent" {
+	} else if variant != "leaf" {
 		return false
 	}
 	target := filepath.Join(w.base, "canary", "f0")
@@ -249,6 +273,28 @@ func intraGroups(thorough bool) []c17case {
 		}
 	}
 	t17 := tree17()
+	// Several transitions in one call that share a parent two or three levels
+	// deep: whatever is remembered from the first must not let the second one
+	// reach its parent through a swapped ancestor.
+	multi := []plan{
+		{{"a/s/x", nil}, {"a/s/y", nil}},
+		{{"a/s/x", nF(c2)}, {"a/s/y", nFx(c1)}},
+		{{"a/s/n1", nF(c1)}, {"a/s/n2", nFx(c2)}},
+		{{"a/s/x", nil}, {"a/s/n1", nF(c2)}},
+		{{"a/s/n1", nD("k", nF(c1))}, {"a/s/n2", nL(t1)}},
+		{{"a/s/l", nil}, {"a/s/d", nil}, {"a/s/y", nF(c1)}},
+		{{"a/s/d/y", nil}, {"a/s/d/n1", nF(c1)}},
+		{{"a/s/d/n1", nF(c1)}, {"a/s/d/n2", nF(c2)}},
+		{{"a/x", nil}, {"a/y", nF(c1)}, {"a/s/x", nil}, {"a/s/y", nil}},
+	}
+	for _, p := range multi {
+		for _, cfg := range owners {
+			out = append(out, c17case{Leg: "intra-transition", Tree: t17, Plan: p, Cfg: cfg, Env: "plain"})
+		}
+		if thorough {
+			out = append(out, c17case{Leg: "intra-transition", Tree: t17, Plan: p, Env: "xdev"})
+		}
+	}
 	alphabet := []string{"a/x", "a/s/x", "a/s/y", "a/s/d/y", "b"}
 	for _, p1 := range alphabet {
 		out = append(out, c17case{Leg: "intra-opener", Tree: t17, Seq: []string{p1}})
